@@ -125,6 +125,21 @@ func encLen(v reflect.Value) int {
 	return len(b)
 }
 
+// encLenElem is the encoded length of one Variant element (strings and byte strings carry a
+// length prefix; everything else is encoded like a field).
+func encLenElem(x reflect.Value) int {
+	switch x.Kind() {
+	case reflect.String:
+		if x.Len() == 0 {
+			return 4
+		}
+		return 4 + x.Len()
+	case reflect.Slice:
+		return 4 + x.Len()
+	}
+	return encLen(x)
+}
+
 func findSites(v reflect.Value, off int, label string, out *[]site, depth int) {
 	if depth > 6 || !v.IsValid() {
 		return
@@ -143,6 +158,33 @@ func findSites(v reflect.Value, off int, label string, out *[]site, depth int) {
 				}
 			}
 		}
+		// nested values that have length fields of their own
+		eoff := off + 1
+		if va.EncodingMask()&ua.VariantArrayValues != 0 {
+			eoff += 4
+		}
+		var walk func(x reflect.Value)
+		walk = func(x reflect.Value) {
+			if !x.IsValid() || eoff < 0 {
+				return
+			}
+			if x.Kind() == reflect.Slice && x.Type() != bytesT && x.Type().Elem().Kind() != reflect.Uint8 {
+				for i := 0; i < x.Len(); i++ {
+					walk(x.Index(i))
+				}
+				return
+			}
+			switch x.Type() {
+			case variantT, dataValT, extObjT:
+				findSites(x, eoff, label+".value", out, depth+1)
+			}
+			if n := encLenElem(x); n >= 0 {
+				eoff += n
+			} else {
+				eoff = -1
+			}
+		}
+		walk(reflect.ValueOf(va.Value()))
 		return
 	case dataValT:
 		dv := v.Interface().(*ua.DataValue)
